@@ -93,6 +93,33 @@ func runPairing(p *Prog, sp *pairSpec) *pairResult {
 				for i := len(defers) - 1; i >= 0; i-- {
 					if i < 8 && st.Has(1<<uint(deferBit0+i)) {
 						apply(x, st, defers[i])
+						// 'defer func() { ... }()': the calls the closure makes on every one of its paths take effect here
+						if mc, ok := defers[i].Call.Value.(*ssa.MakeClosure); ok {
+							if cl, ok := mc.Fn.(*ssa.Function); ok {
+								var rets []*ssa.BasicBlock
+								for _, cb := range cl.Blocks {
+									if _, isRet := cb.Instrs[len(cb.Instrs)-1].(*ssa.Return); isRet {
+										rets = append(rets, cb)
+									}
+								}
+								for _, cb := range cl.Blocks {
+									always := true
+									for _, rb := range rets {
+										if !cb.Dominates(rb) {
+											always = false
+										}
+									}
+									if !always {
+										continue
+									}
+									for _, ci := range cb.Instrs {
+										if cc, ok := ci.(*ssa.Call); ok {
+											apply(x, st, cc)
+										}
+									}
+								}
+							}
+						}
 						st.Clear(1 << uint(deferBit0+i))
 					}
 				}
